@@ -90,6 +90,7 @@ class Sidecar:
         self.classdecl = {}       # abstract classes declared in the sidecar: name -> [bases]
         self.consts = {}
         self.dict_records = set()
+        self.load_modules = []
 
 
 def _s(node):
@@ -202,6 +203,8 @@ def load_file(path, sc):
                 sc.globals[_s(call.args[0])] = _s(call.args[1])
             elif fn == 'declare_class':
                 sc.classdecl[_s(call.args[0])] = [_s(x) for x in call.args[1:]]
+            elif fn == 'load_module':
+                sc.load_modules.append(_s(call.args[0]))
             elif fn == 'dict_record':
                 sc.dict_records.add(_s(call.args[0]))
                 sc.classdecl.setdefault(_s(call.args[0]), [])
